@@ -248,7 +248,7 @@ class Kernel:
         if timeout is None:
             me.wake_at = None
         else:
-            if timeout <= 0:
+            if timeout < (5e-10 if self.epoch == EPOCH_EXACT else 1e-6):
                 # a wait that cannot block still costs a system call: without
                 # this a loop of zero-length waits would freeze virtual time
                 # (with the realistic epoch the library's clock has a
